@@ -518,41 +518,51 @@ class Interp:
             cache[key] = found
         return cache[key]
 
-    @staticmethod
-    def _pure_memo(fi, attr) -> bool:
-        """Is ``fi`` exactly  def f(k): v = G.get(k); if v is None: v = E(k); G[k] = v; return v  with E built from k and
-        names that are not assigned in the function (an external constructor applied to the key)?  Then G only ever maps a
-        key to E(key), and a hit returns what a miss computes."""
+    def _pure_memo(self, fi, attr) -> bool:
+        """Is the module-level mapping ``attr`` nothing but the memo of ``fi``, a function of its key?  Decided by evaluating
+        ``fi`` with the mapping unknown: no other function of the module mentions it, ``fi`` takes one parameter k, every
+        store into the mapping is  G[k] = <the value the path returns>,  a path that stores nothing returns what it loaded
+        from G under k, and the stored value is built from k alone (an external constructor applied to it).  Then G only ever
+        maps a key to E(key), and a hit returns what a miss computes - however the function is written."""
         a = fi.node.args
         params = [x.arg for x in a.posonlyargs + a.args]
-        body = [st for st in fi.node.body if not (isinstance(st, ast.Expr) and isinstance(st.value, ast.Constant))]
-        if len(params) != 1 or a.vararg or a.kwarg or a.kwonlyargs or len(body) != 3:
+        if len(params) != 1 or a.vararg or a.kwarg or a.kwonlyargs:
             return False
-        k = params[0]
-        s1, s2, s3 = body
-        if not (isinstance(s1, ast.Assign) and len(s1.targets) == 1 and isinstance(s1.targets[0], ast.Name)):
+        for other in self.prog.functions.values():
+            if other.module == fi.module and other.qualname != fi.qualname:
+                if any(isinstance(n, ast.Name) and n.id == attr for n in ast.walk(other.node)):
+                    return False
+        sub = Interp(self.prog, summaries=self.summaries, max_depth=self.max_depth)
+        sub.__dict__.setdefault("_gmut_cache", {})[(fi.module, attr)] = True
+        K = Sym(("memo-key",), "str")
+        try:
+            paths = sub.explore(fi.qualname, lambda I: ([K], {}), max_paths=64)
+        except AnalysisError:
             return False
-        v = s1.targets[0].id
-        c = s1.value
-        if not (isinstance(c, ast.Call) and isinstance(c.func, ast.Attribute) and c.func.attr == "get" and isinstance(c.func.value, ast.Name) and c.func.value.id == attr
-                and len(c.args) == 1 and isinstance(c.args[0], ast.Name) and c.args[0].id == k and not c.keywords):
-            return False
-        t = s2.test if isinstance(s2, ast.If) else None
-        if not (isinstance(t, ast.Compare) and isinstance(t.left, ast.Name) and t.left.id == v and len(t.ops) == 1 and isinstance(t.ops[0], ast.Is)
-                and isinstance(t.comparators[0], ast.Constant) and t.comparators[0].value is None and not s2.orelse and len(s2.body) == 2):
-            return False
-        b1, b2 = s2.body
-        if not (isinstance(b1, ast.Assign) and len(b1.targets) == 1 and isinstance(b1.targets[0], ast.Name) and b1.targets[0].id == v and isinstance(b1.value, ast.Call)):
-            return False
-        for n in ast.walk(b1.value):
-            if isinstance(n, ast.Name) and n.id in (v, attr):
+        dotted = f"{fi.module}.{attr}"
+        ok_any = False
+        for p in paths:
+            if p.outcome[0] != "return":
                 return False
-            if isinstance(n, (ast.Lambda, ast.Await, ast.Yield, ast.NamedExpr)):
+            g = p.state.globals_objs.get(dotted)
+            goid = g.oid if isinstance(g, Ref) else None
+            rv = p.outcome[1]
+            sets = [ev for ev, Q in iter_events(p.events) if ev.kind == "dict.set" and isinstance(ev.data.get("obj"), Ref) and ev.obj.oid == goid]
+            others = [ev for ev, Q in iter_events(p.events) if ev.kind in ("dict.set", "attr.set", "list.append", "setitem.unknown") and ev not in sets]
+            if others:
                 return False
-        if not (isinstance(b2, ast.Assign) and len(b2.targets) == 1 and isinstance(b2.targets[0], ast.Subscript) and isinstance(b2.targets[0].value, ast.Name)
-                and b2.targets[0].value.id == attr and isinstance(b2.targets[0].slice, ast.Name) and b2.targets[0].slice.id == k and isinstance(b2.value, ast.Name) and b2.value.id == v):
-            return False
-        return isinstance(s3, ast.Return) and isinstance(s3.value, ast.Name) and s3.value.id == v
+            if sets:
+                if len(sets) != 1 or desc(sets[0].key) != desc(K) or desc(sets[0].value) != desc(rv):
+                    return False
+                d = repr(desc(rv))
+                if "'dict'" in d or "'ref'" in d or "'global'" in d or "'dictitem'" in d:
+                    return False
+                ok_any = True
+            else:
+                d = desc(rv)
+                if not (isinstance(d, tuple) and d[:1] == ("dictitem",) and d[1] == ("dict", goid) and d[2] == desc(K)):
+                    return False
+        return ok_any
 
     def global_value(self, dotted: str, module: str, name: str):
         if dotted in self.prog.functions:
